@@ -18,8 +18,8 @@ from lib import vlib
 from lib.vlib import cq_bytes, cq_list, cq_bool, cq_nat
 
 SETUP_BUILDS = [{"name": "c08"}]
-COQ_TARGETS = ["Blob/Properties_C08.v", "Blob/Corr.v"]
-HEADER = ("From Coq Require Import List NArith Bool.\nFrom V Require Import Common.Bytes Blob.Model Blob.Corr.\n"
+COQ_TARGETS = ["Blob/Properties_C08.v", "Blob/Corr.v", "Blob/ChunkCorr.v"]
+HEADER = ("From Coq Require Import List NArith Bool.\nFrom V Require Import Common.Bytes Blob.Model Blob.Corr Blob.Pull Blob.ChunkCorr.\n"
           "Import ListNotations.\nOpen Scope N_scope.\n")
 FIXED = True   # the model describes Link as repaired by fixes/C08-link-size-shortcut.patch
 
@@ -264,35 +264,76 @@ def gen_hist(rng, klass=None):
     return {"kind": "hist", "pool": [hx(c) for c in pool], "digests": [sha(c) for c in pool], "ops": ops, "klass": klass or "hist"}
 
 
+def chunk_plan(rng, c, kind):
+    """list of (start, bytes the chunk claims to be) for a blob c; 'partition' covers c exactly, the other kinds have the
+    blob's byte total (what a byte counter sees) without being the blob"""
+    n = len(c)
+    if kind in ("dupgap", "shifted") or (kind == "partition" and rng.random() < 0.3):
+        g = rng.choice([x for x in (1, 2, 3, 4) if n % x == 0 and n // x >= 3] or [1])
+        bounds = list(range(0, n + 1, g))
+    else:
+        k = rng.randint(1, min(4, n))
+        bounds = [0] + (sorted(rng.sample(range(1, n), k - 1)) if k > 1 else []) + [n]
+    plan = [(bounds[i], c[bounds[i]:bounds[i + 1]]) for i in range(len(bounds) - 1)]
+    if kind == "dupgap" and len(plan) >= 3:
+        # one range delivered twice, another of equal length missing, the last range present
+        i, j = rng.sample(range(len(plan) - 1), 2)
+        plan[j] = plan[i]
+    elif kind == "shifted" and len(plan) >= 2:
+        i = rng.randrange(len(plan))
+        s0, part = plan[i]
+        cands = [x for x in range(0, n - len(part) + 1) if x != s0]
+        if cands:
+            x = rng.choice(cands)
+            plan[i] = (x, c[x:x + len(part)])
+    elif kind == "overlap" and len(plan) >= 3:
+        # a middle chunk is replaced by one of the same length inside a range that is covered anyway
+        j = rng.randrange(1, len(plan) - 1)
+        g = len(plan[j][1])
+        cands = [x for x in range(0, n - g + 1) if (x + g <= plan[j][0] or x >= plan[j][0] + g) and all((x, c[x:x + g]) != q for q in plan)]
+        if cands:
+            x = rng.choice(cands)
+            plan[j] = (x, c[x:x + g])
+    elif kind == "wrongbytes":
+        # every chunk is consistent with its own digest, but one of them is not the blob's bytes
+        i = rng.randrange(len(plan))
+        s0, part = plan[i]
+        bad = bytes((b ^ 0x20) for b in part)
+        plan[i] = (s0, bad)
+    if rng.random() < 0.5:
+        rng.shuffle(plan)
+    return plan
+
+
+CHUNK_KINDS = ["partition", "partition", "partition", "dupgap", "dupgap", "shifted", "overlap", "wrongbytes", "wrongbytes"]
+
+
 def gen_chunk_hist(rng):
-    """histories that mix the chunked writer (DiskCache.Chunked / Chunker.Put / Commit, chunked.go) with Put and Get on the
-    same digests; monitored only (the model of Chunker is C09's Blob/Pull.v)"""
-    pool = list(dict.fromkeys(rnd_content(rng, rng.randint(2, 12)) for _ in range(rng.randint(1, 2))))
+    """histories that mix the chunked writer (DiskCache.Chunked / Chunker.Put / Commit, chunked.go) with Put, Import and Get
+    on the same digests; compared with the model (Blob/ChunkCorr.v) and monitored"""
+    pool = list(dict.fromkeys(rnd_content(rng, rng.choice([4, 6, 6, 8, 9, 12])) for _ in range(rng.randint(1, 2))))
     ops = []
     for _ in range(rng.randint(2, 6)):
         c = rng.choice(pool)
         d = sha(c)
         r = rng.random()
         if r < 0.6:
-            n = len(c)
-            k = rng.randint(1, min(3, n))
-            cuts = sorted(rng.sample(range(1, n), k - 1)) if k > 1 else []
-            bounds = [0] + cuts + [n]
+            kind = rng.choice(CHUNK_KINDS)
             chunks = []
-            idx = list(range(len(bounds) - 1))
-            rng.shuffle(idx)
-            for i in idx:
-                if rng.random() < 0.2:
+            for (st, part) in chunk_plan(rng, c, kind):
+                if kind == "partition" and rng.random() < 0.2:
                     continue                       # this chunk never arrives
-                part = c[bounds[i]:bounds[i + 1]]
-                kind = rng.choice(["honest", "honest", "honest", "short", "corrupt", "err", "long-after"])
-                chunks.append({"start": bounds[i], "len": len(part), "d": sha(part), "src": mk_src(rng, part, kind), "k": kind})
-            ops.append({"op": "chunked", "d": d, "size": n, "chunks": chunks, "commit": rng.random() < 0.8})
-        elif r < 0.8:
+                sk = rng.choice(["honest", "honest", "honest", "short", "corrupt", "err", "long-after"]) if kind == "partition" else rng.choice(["honest", "honest-eof"])
+                chunks.append({"start": st, "len": len(part), "d": sha(part), "bytes": hx(part), "src": mk_src(rng, part, sk), "k": sk})
+            ops.append({"op": "chunked", "d": d, "size": len(c), "chunks": chunks, "commit": rng.random() < 0.85, "plan": kind})
+        elif r < 0.78:
             ops.append({"op": "put", "d": d, "size": len(c), "src": mk_src(rng, c, rng.choice(SRC_KINDS)), "k": "mixed"})
+        elif r < 0.88:
+            src = mk_src(rng, c, rng.choice(["honest", "honest-eof", "junk"]))
+            ops.append({"op": "import", "src": src, "size": len(src_total(src))})
         else:
             ops.append({"op": "get", "d": d})
-    return {"kind": "hist", "pool": [hx(c) for c in pool], "digests": [sha(c) for c in pool], "ops": ops, "klass": "hist-chunked", "monitor_only": True}
+    return {"kind": "hist", "pool": [hx(c) for c in pool], "digests": [sha(c) for c in pool], "ops": ops, "klass": "hist-chunked", "chunked": True}
 
 
 def gen_conc(rng):
@@ -466,6 +507,8 @@ def preimages(c, o):
             add(src_total(op["src"]))
         if op.get("op") == "raw":
             add(bytes.fromhex(op["data"]))
+        for ch in op.get("chunks", []):
+            add(bytes.fromhex(ch["bytes"]))
     for st in o.get("steps", []):
         snap = st.get("snap", {})
         for v in list(snap.get("blobs", {}).values()) + list(snap.get("links", {}).values()):
@@ -485,7 +528,60 @@ def render_snap(snap, pre):
     return "(%s, %s)" % (cq_list(bl, "(Dg * list N)%type"), cq_list(ln, "(path * list N)%type"))
 
 
+CRES = {"": "COk", "underfoot": "(CFail PChecksum)", "ueof": "(CFail PShort)", "source": "(CFail (PRead false))"}
+
+
+def cq_chunk(ch):
+    pieces, tail = [], "None"
+    for r in ch["src"]:
+        pieces.append(cq_bytes(bytes.fromhex(r["data"])))
+        if r["st"] == "eof":
+            break
+        if r["st"] == "err":
+            tail = "(Some (PRead false))"
+            break
+    return "((%s, %s, %s), CBody %s %s)" % (cq_bytes(bytes.fromhex(ch["bytes"])), cq_nat(ch["start"]), cq_nat(ch["len"]), cq_list(pieces, "(list N)"), tail)
+
+
+def render_xsnap(snap, pre):
+    bl, pa = [], []
+    for name, content in sorted(snap["blobs"].items()):
+        part = name.endswith(".chunked")
+        base = name[:-8] if part else name
+        if not base.startswith("sha256-") or base[7:] not in pre:
+            return None
+        (pa if part else bl).append("(%s, %s)" % (cq_bytes(pre[base[7:]]), cq_bytes(bytes.fromhex(content))))
+    ln = ["(%s, %s)" % (cq_path(p.split("/")), cq_bytes(bytes.fromhex(v))) for p, v in sorted(snap["links"].items())]
+    ty = "(Dg * list N)%type"
+    return "(%s, %s, %s)" % (cq_list(bl, ty), cq_list(pa, ty), cq_list(ln, "(path * list N)%type"))
+
+
+def render_xhist(c, o):
+    pre = preimages(c, o)
+    ops, obs = [], []
+    for op, st in zip(c["ops"], o["steps"]):
+        sn = render_xsnap(st["snap"], pre)
+        if sn is None:
+            return "false"
+        if op["op"] == "chunked":
+            ops.append("(XChunked %s %s %s %s)" % (cq_bytes(pre[op["d"]]), cq_nat(op["size"]), cq_list([cq_chunk(ch) for ch in op["chunks"]], "xchunk"), cq_bool(op["commit"])))
+            res = st["res"]
+            puts = [CRES.get(x) for x in (res.get("puts") or [])]
+            if None in puts or res.get("kind") not in ("ok", "err") or (res.get("kind") == "err" and res.get("err") != "commit"):
+                return "false"
+            obs.append("(XChunkOut %s %s, %s)" % (cq_list(puts, "cres"), cq_bool(res["kind"] == "ok"), sn))
+        else:
+            ops.append("(XBase %s)" % render_op(op, pre))
+            r = render_out(st["res"], pre)
+            if r is None:
+                return "false"
+            obs.append("(XOut %s, %s)" % (r, sn))
+    return "chk_xhist %s %s %s" % (cq_bool(FIXED), cq_list(ops, "xop"), cq_list(obs, "(xout * xsnapshot)%type"))
+
+
 def render_hist(c, o):
+    if c.get("chunked"):
+        return render_xhist(c, o)
     pre = preimages(c, o)
     ops, obs = [], []
     for op, st in zip(c["ops"], o["steps"]):
@@ -595,6 +691,13 @@ def monitor_hist(c, o):
             tot = src_total(op["src"])
             if res["d"] != sha(tot) or (tot and bytes.fromhex(snap["blobs"].get("sha256-" + res["d"], "")) != tot):
                 out.append(({"kind": "hist", "class": "import-wrong"}, "op %d: Import returned %s.. for data hashing to %s.., or stored other bytes" % (i, res["d"][:8], sha(tot)[:8])))
+        # (2b) Commit of the chunked writer succeeded => the blob under the digest is the blob
+        if op["op"] == "chunked" and op.get("commit") and res.get("kind") == "ok":
+            data = bytes.fromhex(snap["blobs"].get("sha256-" + op["d"], ""))
+            if sha(data) != op["d"] or len(data) != op["size"]:
+                out.append(({"kind": "hist", "class": "commit-ok-content-bad", "plan": op.get("plan")},
+                            "op %d: Chunker.Commit returned nil (plan %s: %s) but the file under the digest hashes to %s.. (%r)" % (
+                                i, op.get("plan"), [(ch["start"], ch["len"]) for ch in op["chunks"]], sha(data)[:8], data)))
         # names: a name is either rejected by every operation or by none
         if op["op"] in ("link", "unlink", "resolve") and nparts(op["name"]) is not None:
             v = "rejected" if (res.get("kind") == "err" and res.get("err") == "invalidname") else "accepted"
@@ -735,7 +838,7 @@ def run(ctx, only_cases=None):
                        "digests are represented by their preimages in the model instance (no SHA-256 collision among test data)",
                        "Close never fails; manifests are smaller than 1 MiB (readAndSum limit)",
                        "crashes inside one write (a prefix of its bytes) are covered by the theorems, on the implementation only crashes between writes are produced"]
-    ctx.proof_stage(["Blob"], "Blob/Properties_C08.v", extra_targets=["Blob/Corr.v"])
+    ctx.proof_stage(["Blob"], "Blob/Properties_C08.v", extra_targets=["Blob/Corr.v", "Blob/ChunkCorr.v"])
     if not ctx.quick():
         ctx.coqchk(["V.Blob.Properties_C08"])
     binp = ctx.go_build("c08")
@@ -755,6 +858,8 @@ def run(ctx, only_cases=None):
             for op in c["ops"]:
                 for ch in op.get("chunks", []):
                     ctx.count("chunk-src:" + ch["k"])
+                if op["op"] == "chunked":
+                    ctx.count("chunk-plan:" + op.get("plan", "?"))
                 ctx.count("op:" + op["op"] + (":" + op["k"] if "k" in op else "") + (":crash" if op.get("crash") is not None else "") + (":bytes" if op.get("bytes") else ""))
                 st = None
             for st in o.get("steps", []):
